@@ -77,7 +77,7 @@ BATTERY = [
 
 def generate(rng, tier="quick"):
     n = rng.randint(4, 16)
-    kinds = ["create", "create", "validates", "create_illegal", "validator_for", "validator_for", "validate",
+    kinds = ["create", "create", "validates", "create_illegal", "create_mismatched", "validator_for", "validator_for", "validate",
              "validate", "cli", "suspend", "resume", "validate_cls"]
     enabled = [k for k in kinds if rng.random() < 0.8] or kinds
     if "create" not in enabled and "validates" not in enabled:
@@ -301,6 +301,19 @@ def execute(scn):
                 last_registration = step
                 if suspended:
                     probe("registration_while_iterator_suspended")
+                check_registry(step, k)
+            elif k == "create_mismatched":
+                # a class built from a BUILT-IN draft's metaschema but with the id function of the other family
+                # has no metaschema id of its own (ID_OF(META_SCHEMA) == ""): registering it must not bind - let
+                # alone rebind - any `$schema` id
+                base = drafts[op["base"]]
+                other = drafts["draft7" if op["base"] in ("draft3", "draft4") else "draft4"]
+                kws = dict(base.VALIDATORS)
+                kws["minimum"] = variant_kw("minimum")
+                cls = V.create(meta_schema=dict(base.META_SCHEMA), validators=kws, version="dsim c20 mismatched %d" % step,
+                               type_checker=base.TYPE_CHECKER, id_of=other.ID_OF)
+                notes[id(cls)] = "mismatched@%d<%s" % (step, op["base"])
+                probe("registration_without_own_id")
                 check_registry(step, k)
             elif k == "create_illegal":
                 probe("failed_registration_checked")
